@@ -310,7 +310,140 @@ def gen_malformed(rng):
     return doc, dmg
 
 
+# ---- in-place edits of the page tree (the case element (edits ((id gen) obj) ...)) ---------------------------------------
+def sx_parse(s):
+    """the case language read back: atoms are str, lists are list"""
+    stack, cur = [], []
+    for tok in s.replace('(', ' ( ').replace(')', ' ) ').split():
+        if tok == '(':
+            stack.append(cur)
+            cur = []
+        elif tok == ')':
+            done, cur = cur, stack.pop()
+            cur.append(done)
+        else:
+            cur.append(tok)
+    return cur[0]
+
+
+def sx_str(x):
+    return x if isinstance(x, str) else '(' + ' '.join(sx_str(e) for e in x) + ')'
+
+
+K_KIDS, K_TYPE, N_PAGE = xb('Kids'), xb('Type'), xb('Page')
+
+
+def make_edit(rng, doc):
+    """choose a rearrangement of the page tree that replaces existing objects under their own identifiers (no object is
+    added or removed, max_id stays): reverse a Kids array, swap two kids, rotate, move a kid (a page when there is one) from
+    one node to another, drop a kid, redirect a kid to another existing page.  Works on the text of ANY document (damaged
+    ones as well): a Kids array is the array under the key Kids of a dictionary object, or an object that is itself a
+    non-empty array of references (Kids behind references).  Returns ((edits ...) text, kind) or (None, None)."""
+    d = sx_parse(doc) if isinstance(doc, str) else doc
+    objs = {}
+    for e in d[4][1:]:
+        objs[(e[0][0], e[0][1])] = e[1]          # later wins, as in the loaders of both sides
+    def is_ref(x):
+        return isinstance(x, list) and len(x) == 3 and x[0] == 'ref'
+    def resolve(x):
+        for _ in range(8):
+            if not is_ref(x):
+                return x
+            x = objs.get((x[1], x[2]))
+        return None
+    def is_page(x):
+        o = resolve(x)
+        return isinstance(o, list) and o[:1] == ['d'] and any(e[0] == K_TYPE and e[1] == ['n', N_PAGE] for e in o[1:])
+    holders = []       # (id, index of the Kids entry in the dictionary | None = the object is the array)
+    for oid, o in sorted(objs.items(), key=lambda kv: (int(kv[0][0]), int(kv[0][1]))):
+        if not isinstance(o, list) or not o:
+            continue
+        if o[0] == 'd':
+            for k, e in enumerate(o[1:], 1):
+                if e[0] == K_KIDS and isinstance(e[1], list) and e[1][:1] == ['a']:
+                    holders.append((oid, k))
+        elif o[0] == 'a' and len(o) > 1 and all(is_ref(x) for x in o[1:]):
+            holders.append((oid, None))
+    if not holders:
+        return None, None
+    def kids(h):
+        o = objs[h[0]]
+        return list((o if h[1] is None else o[h[1]][1])[1:])
+    def with_kids(h, ks):
+        o = objs[h[0]]
+        if h[1] is None:
+            return ['a'] + ks
+        return o[:h[1]] + [[o[h[1]][0], ['a'] + ks]] + o[h[1] + 1:]
+    varied = [h for h in holders if len(set(map(sx_str, kids(h)))) >= 2]
+    nonempty = [h for h in holders if kids(h)]
+    all_pages = [x for h in holders for x in kids(h) if is_ref(x) and is_page(x)]
+    kind = rng.choice(['reverse', 'reverse', 'swap', 'swap', 'rotate', 'move', 'move', 'move', 'drop', 'drop', 'redirect'])
+    if kind in ('reverse', 'swap', 'rotate') and not varied:
+        kind = 'drop'
+    if kind == 'move' and (len(holders) < 2 or not nonempty):
+        kind = 'drop'
+    if kind == 'redirect' and (not nonempty or not all_pages):
+        kind = 'drop'
+    if kind == 'drop' and not nonempty:
+        return None, None
+    new = {}
+    if kind == 'reverse':
+        h = rng.choice(varied)
+        new[h] = kids(h)[::-1]
+    elif kind == 'rotate':
+        h = rng.choice(varied)
+        ks = kids(h)
+        r = rng.randint(1, len(ks) - 1)
+        new[h] = ks[r:] + ks[:r]
+    elif kind == 'swap':
+        h = rng.choice(varied)
+        ks = kids(h)
+        while True:
+            i, j = rng.sample(range(len(ks)), 2)
+            if sx_str(ks[i]) != sx_str(ks[j]):
+                break
+        ks[i], ks[j] = ks[j], ks[i]
+        new[h] = ks
+    elif kind == 'move':
+        with_page = [h for h in nonempty if any(is_ref(x) and is_page(x) for x in kids(h))]
+        a = rng.choice(with_page if with_page and rng.random() < 0.8 else nonempty)
+        b = rng.choice([h for h in holders if h != a])
+        ka, kb = kids(a), kids(b)
+        cand = [i for i, x in enumerate(ka) if is_ref(x) and is_page(x)]
+        i = rng.choice(cand) if cand and rng.random() < 0.85 else rng.randrange(len(ka))
+        kb.insert(rng.randint(0, len(kb)), ka.pop(i))
+        new[a], new[b] = ka, kb
+    elif kind == 'drop':
+        h = rng.choice(nonempty)
+        ks = kids(h)
+        cand = [i for i, x in enumerate(ks) if is_ref(x) and is_page(x)]
+        ks.pop(rng.choice(cand) if cand and rng.random() < 0.7 else rng.randrange(len(ks)))
+        new[h] = ks
+    else:
+        h = rng.choice(nonempty)
+        ks = kids(h)
+        ks[rng.randrange(len(ks))] = rng.choice(all_pages)
+        new[h] = ks
+    # two different holders are different objects (a dictionary has one Kids entry): every edit replaces distinct objects
+    return L('edits', *[L(OID(int(h[0][0]), int(h[0][1])), sx_str(with_kids(h, ks))) for h, ks in new.items()]), kind
+
+
+def with_edit(rng, line, tags):
+    """the case with an in-place edit of its page tree appended (when the document has a Kids array at all)"""
+    d = sx_parse(line)
+    ed, kind = make_edit(rng, d[1])
+    if ed is None:
+        return line, tags
+    tags = dict(tags)
+    tags['edit'] = kind
+    return line[:-1] + ' ' + ed + ')', tags
+
+
 def gen_cases(rng, tier):
+    return [with_edit(rng, line, tags) for line, tags in gen_cases0(rng, tier)]
+
+
+def gen_cases0(rng, tier):
     n = 240 if tier == 'quick' else 6000
     cases = []
     for k in range(n):
@@ -362,7 +495,12 @@ SPEC = {
             'several hundred intermediate nodes that are the last kid of their parent, so the iterator climbs two or more levels by one pop '
             'hundreds of times; every case also steps the iterator by hand recording size_hint before and '
             'after every page (compared with the model; upper bound and count-down checked directly), nth(k)/get_pages()[k+1], and '
-            'delete_pages of the middle page on every proper tree; non-trivial = at least 2 leaves or malformed; distinct = distinct case text',
+            'delete_pages of the middle page on every proper tree; every document that has a Kids array carries an IN-PLACE edit of its '
+            'page tree (reverse / rotate a Kids array, swap two kids, move a kid -- mostly a page -- to another node, drop a kid, '
+            'redirect a kid to another page: existing objects replaced under their own ids, |objects| and max_id unchanged) applied '
+            'after the first get_pages(): get_pages() asked again must number page_iter() of the EDITED document (= the depth-first '
+            'leaves the harness reads off the edited tree when it is a proper tree; compared with the model run on the edited '
+            'document), a clone numbers alike, and after undoing the edit the first numbering comes back; non-trivial = at least 2 leaves or malformed; distinct = distinct case text',
     'extra_trusted': ['C12: model of PageTreeIter merges stack pops into pop_nonempty (justified in Model/PageTree.v header)'],
 }
 
